@@ -84,11 +84,11 @@ func VerifC06RawBlock() {
 	case 0:
 		err = b.DecodeBlock(r, v, res.Auto())
 	case 1:
-		res = Results{{Data: new(ColStr)}}
+		res = Results{{Data: new(ColInt8)}} // a short type name: a block with this column fits into few bytes
 		err = b.DecodeBlock(r, v, res)
 	case 2: // a typed target that already holds a row of an earlier block
-		used := new(ColStr)
-		used.Append("x")
+		used := new(ColInt8)
+		used.Append(7)
 		res = Results{{Data: used}}
 		err = b.DecodeBlock(r, v, res)
 	case 3: // inferred targets that an earlier block has bound and filled
@@ -96,7 +96,7 @@ func VerifC06RawBlock() {
 		w.vint(1)
 		w.vint(1)
 		w.str("a")
-		w.str("UInt8")
+		w.str("Int8")
 		if v >= refRevCustomSerial {
 			w.u8(0)
 		}
@@ -112,6 +112,10 @@ func VerifC06RawBlock() {
 		return
 	}
 	verifNote("accepted")
+	if b.Columns == 0 && b.Rows == 0 {
+		// the empty end-of-data marker (no columns, no rows): the targets are not part of it
+		return
+	}
 	for _, c := range res {
 		verifAssert(c.Data.Rows() == b.Rows, "rows-consistent")
 	}
